@@ -663,7 +663,7 @@ func (r Res) Diff(o Res) string {
 	if r.Matched != o.Matched || r.Modified != o.Modified || r.Upserted != o.Upserted || r.Inserted != o.Inserted || r.Deleted != o.Deleted {
 		return fmt.Sprintf("counts differ: matched %d/%d modified %d/%d upserted %d/%d inserted %d/%d", r.Matched, o.Matched, r.Modified, o.Modified, r.Upserted, o.Upserted, r.Inserted, o.Inserted)
 	}
-	if string(gen.ValueBytes(bson.A(r.IDs))) != string(gen.ValueBytes(bson.A(o.IDs))) {
+	if len(r.IDs)+len(o.IDs) > 0 && string(gen.ValueBytes(bson.A(r.IDs))) != string(gen.ValueBytes(bson.A(o.IDs))) {
 		return fmt.Sprintf("ids differ: %s vs %s", gen.JSON(bson.A(r.IDs)), gen.JSON(bson.A(o.IDs)))
 	}
 	if fmt.Sprint(r.UpsertIdx) != fmt.Sprint(o.UpsertIdx) {
@@ -677,7 +677,7 @@ func (r Res) Diff(o Res) string {
 			return fmt.Sprintf("returned document %d differs: %s vs %s", i, gen.JSON(r.Docs[i]), gen.JSON(o.Docs[i]))
 		}
 	}
-	if string(gen.ValueBytes(bson.A(r.Values))) != string(gen.ValueBytes(bson.A(o.Values))) {
+	if len(r.Values)+len(o.Values) > 0 && string(gen.ValueBytes(bson.A(r.Values))) != string(gen.ValueBytes(bson.A(o.Values))) {
 		return fmt.Sprintf("values differ: %s vs %s", gen.JSON(bson.A(r.Values)), gen.JSON(bson.A(o.Values)))
 	}
 	if fmt.Sprint(r.Names) != fmt.Sprint(o.Names) {
